@@ -4,6 +4,7 @@ from __future__ import annotations
 import ast
 
 from ..algebra import NC, NotPolynomial, Poly, ToNC, ToPoly
+from ..amatch import AM
 from ..fold import table
 from ..report import AnalysisError
 from ..srcmodel import norm
@@ -247,55 +248,33 @@ def rule_d(ctx):
     m = ctx.model
     f = m.func(TRA, "TransformationCorrection.correct_array")
     ctx.instance(R)
-    env = {}
-    for s in ast.walk(f.node):
-        if isinstance(s, ast.Assign) and isinstance(s.targets[0], ast.Name):
-            env[s.targets[0].id] = s.value
-    vd = [k for k, v in env.items() if norm(v) == "self.coordinatesystem_dst.voxels"]
-    ctx.need(len(vd) == 1, "correct_array: destination voxels not found")
-    vd = vd[0]
-    # stage chain
-    def find(pred):
-        return [k for k, v in env.items() if pred(norm(v))]
-    s1 = find(lambda t: t == f"{vd}.to_voxel_center().to(self.transformation.input_dtype, self.coordinatesystem_dst)")
-    ctx.ob(R, f.qname, "stage 1: destination voxels -> voxel centres -> transformation input type in the destination system", len(s1) == 1, str(s1), f.node)
-    s2 = find(lambda t: s1 and t == f"self.transformation.inverse({s1[0]})")
-    ctx.ob(R, f.qname, "stage 2: the inverse transformation is applied to stage 1", len(s2) == 1, str(s2), f.node)
-    s3 = find(lambda t: s2 and t == f"{s2[0]}.to_voxel(self.coordinatesystem_src)")
-    ctx.ob(R, f.qname, "stage 3: converted to voxels of the source system", len(s3) == 1, str(s3), f.node)
-    vs = s3[0] if s3 else "voxels_src"
-    mask = find(lambda t: t.startswith("np.all(np.logical_and(") and t.endswith(", axis=1)"))
-    ok = False
-    if len(mask) == 1:
-        call = env[mask[0]]
-        la = call.args[0]
-        parts = sorted(norm(a) for a in la.args)
-        ok = len(parts) == 2 and parts[0].startswith(f"{vs} < self.coordinatesystem_src.shape") and parts[1].startswith(f"{vs} >= np.zeros(")
-    ctx.ob(R, f.qname, "validity mask is two-sided: 0 <= source voxel < source shape on every axis", ok, norm(env[mask[0]])[:160] if mask else "", f.node)
-    # warp assignment
-    warp = [s for s in ast.walk(f.node) if isinstance(s, ast.Assign) and isinstance(s.targets[0], ast.Subscript) and norm(s.targets[0].value) == "array_dst"]
-    ok = False
-    desc = ""
-    if len(warp) == 1:
-        t, v = norm(warp[0].targets[0].slice), norm(warp[0].value)
-        desc = f"{t} = {v}"
-        ok = (t == f"tuple(({vd}[self.cache.valid_voxels, j] for j in range(dim)))"
-              and v == f"{f.params[1]}[tuple((self.cache.voxels_src[self.cache.valid_voxels, j] for j in range(dim)))]")
-    ctx.ob(R, f.qname, "the same mask selects destination voxels and source voxels in the assignment", ok, desc[:200], f.node)
-    alloc = norm(env.get("array_dst", ast.Constant(0)))
-    shp = norm(env.get("shape", ast.Constant(0)))
-    ctx.ob(R, f.qname, "output is zero-initialised with destination spatial shape and source payload shape",
-           alloc == f"np.zeros(shape, dtype={f.params[1]}.dtype)" and shp == f"(*self.coordinatesystem_dst.shape, *list({f.params[1]}.shape)[dim:])", f"{alloc}; {shp}", f.node)
-    cache = [s for s in ast.walk(f.node) if isinstance(s, ast.Assign) and self_attr(s.targets[0]) == "cache"]
-    ok = len(cache) == 1 and norm(cache[0].value) == f"Cache(voxels_src={vs}, valid_voxels={mask[0] if mask else '?'})"
-    ctx.ob(R, f.qname, "cache stores exactly the source voxels and the mask", ok, norm(cache[0].value) if cache else "", f.node)
-    # J1: nothing in the cached computation depends on the array argument
-    cached_names = {vs, mask[0] if mask else "", *(s1 + s2)}
+    am = AM(f)
+    arr = f.params[1]
+    body_nodes = list(ast.walk(f.node))
+    ok_vd = am.has(f.node, "voxels_dst = self.coordinatesystem_dst.voxels") is not None
+    ctx.need(ok_vd, "correct_array: destination voxels not found")
+    s1 = am.has(f.node, "transformation_input = voxels_dst.to_voxel_center().to(self.transformation.input_dtype, self.coordinatesystem_dst)")
+    ctx.ob(R, f.qname, "stage 1: destination voxels -> voxel centres -> transformation input type in the destination system", s1 is not None, "", f.node)
+    s2 = am.has(f.node, "transformation_output = self.transformation.inverse(transformation_input)")
+    ctx.ob(R, f.qname, "stage 2: the inverse transformation is applied to stage 1", s2 is not None, "", f.node)
+    s3 = am.has(f.node, "voxels_src = transformation_output.to_voxel(self.coordinatesystem_src)")
+    ctx.ob(R, f.qname, "stage 3: converted to voxels of the source system", s3 is not None, "", f.node)
+    ok_dim = am.has(f.node, "dim = self.coordinatesystem_src.dim") is not None
+    mk = (am.has(f.node, "valid_voxels = np.all(np.logical_and(voxels_src >= np.zeros(dim, dtype=int), voxels_src < self.coordinatesystem_src.shape), axis=1)")
+          or am.has(f.node, "valid_voxels = np.all(np.logical_and(voxels_src < self.coordinatesystem_src.shape, voxels_src >= np.zeros(dim, dtype=int)), axis=1)"))
+    ctx.ob(R, f.qname, "validity mask is two-sided: 0 <= source voxel < source shape on every axis", mk is not None and ok_dim, str(am.show()), f.node)
+    warp = am.has(f.node, f"array_dst[tuple((voxels_dst[self.cache.valid_voxels, j] for j in range(dim)))] = {arr}[tuple((self.cache.voxels_src[self.cache.valid_voxels, j] for j in range(dim)))]")
+    ctx.ob(R, f.qname, "the same mask selects destination voxels and source voxels in the assignment", warp is not None, "", f.node)
+    alloc = am.has(f.node, f"shape = (*self.coordinatesystem_dst.shape, *list({arr}.shape)[dim:])") is not None and am.has(f.node, f"array_dst = np.zeros(shape, dtype={arr}.dtype)") is not None
+    n_alloc = len([s_ for s_ in body_nodes if isinstance(s_, ast.Assign) and isinstance(s_.targets[0], ast.Name) and s_.targets[0].id == (am.actual("array_dst") or "array_dst")])
+    ctx.ob(R, f.qname, "output is zero-initialised (once, unconditionally) with destination spatial shape and source payload shape", alloc and n_alloc == 1, f"{n_alloc} definition(s) of the output array", f.node)
+    cache = am.has(f.node, "self.cache = Cache(voxels_src=voxels_src, valid_voxels=valid_voxels)")
+    ctx.ob(R, f.qname, "cache stores exactly the source voxels and the mask", cache is not None, "", f.node)
     dep = set()
-    for k in cached_names:
-        if k in env:
-            dep |= {x.id for x in ast.walk(env[k]) if isinstance(x, ast.Name)}
-    ctx.ob(R, f.qname, "cached warp does not depend on the array passed to the call", f.params[1] not in dep, str(sorted(dep)), f.node)
+    for st in (s1, s2, s3, mk):
+        if st is not None:
+            dep |= {x.id for x in ast.walk(st.value) if isinstance(x, ast.Name)}
+    ctx.ob(R, f.qname, "cached warp does not depend on the array passed to the call", arr not in dep, str(sorted(dep)), f.node)
     ctx.floor(R, 1)
 
 
@@ -336,3 +315,12 @@ def run(ctx):
     rule_c(ctx)
     rule_d(ctx)
     rule_e(ctx)
+    # the conversion of pulled-back points to source voxels must be floor based: shared rule C01.d
+    from . import c01
+
+    n0 = len(ctx.obs)
+    c01.rule_d(ctx)
+    for o in ctx.obs[n0:]:
+        o.rule = "C09.d/" + o.rule
+    if "C01.d" in ctx.rule_text:
+        ctx.rule_text["C09.d/C01.d"] = ctx.rule_text.pop("C01.d")
